@@ -35,6 +35,7 @@ SPEC = {
     "judge": judge,
     "post": post,
     "trusted_base": [
+        "kernel vm_compute is trusted for two closed computations (smulx n G = Inf; acceptance of the F12 witness); coqchk is not run on this property because it has no VM",
         "premises of sign_accepted / malleated_accepted_iff (NOT proved): prime p, prime n, padd_associative, sqrt_correct (see C14)",
         "transaction and block roles are checked on the implementation only (Transaction.Verify + VerifyInputSignatures; SignedBlock.VerifySignature + body hash); "
         "their structure (inner hash covers In/Out, exact decoding) is not modelled here (C09/C21 cover decoding)",
@@ -48,4 +49,14 @@ SPEC = {
 
 
 def run(ctx):
+    # coqchk (no VM) cannot re-check the kernel computations these theorems rest on (n*G = O on the
+    # Jacobian execution, the F12 witness: whole 256-bit scalar multiplications under lazy
+    # conversion take tens of minutes while holding the build lock) — stated in the trusted base
+    import os
+    os.environ["VERIF_NO_COQCHK"] = "1"
+    ctx.notes.append("coqchk is not run for this property: vm_compute certificates (order_G_exec / f12_accepted) are not re-checkable without the VM in reasonable time")
     modeb.standard_run(ctx, SPEC)
+
+
+def replay(ctx, path):
+    return modeb.replay(ctx, SPEC, path)
